@@ -1222,7 +1222,8 @@ def ref_block_matrix(nums, n, mode):
     return C
 
 
-_BLOCK_NUMS = {1: [0.3], 2: [0.8, -0.3, 0.7], 3: [0.8, 0.2, 0.7, -0.1, 0.3, 0.9]}
+_BLOCK_NUMS = {1: [0.3], 2: [0.8, -0.3, 0.7], 3: [0.8, 0.2, 0.7, -0.1, 0.3, 0.9],
+               4: [0.8, 0.2, 0.7, -0.1, 0.3, 0.9, 0.05, -0.2, 0.1, 0.6]}
 _MODES = [
     ('', ''), ('VARIANCE', 'VAR'), ('STANDARD', 'SD'), ('CORRELATION', 'CORR'),
     ('STANDARD CORRELATION', 'SD CORR'), ('CORRELATION STANDARD', 'CORR SD'),
@@ -1293,7 +1294,7 @@ def gen_cov_records(tier):
     diag('0 FIX', [(0.0, True)])
     diag('1E-2 2.5E-1', [(0.01, False), (0.25, False)])
 
-    for n in (1, 2, 3):
+    for n in ((1, 2, 3, 4) if tier == 'thorough' else (1, 2, 3)):
         nums = _BLOCK_NUMS[n]
         rows = _fmt_rows(nums, n)
         flat = ' '.join(rows)
@@ -1631,7 +1632,7 @@ def bounded_omega_theta_parse(tier='quick'):
             f'(init | (init) | (low,init) | (low,init,up) | xn repeats | FIX inside/outside | all bounds equal) '
             f'over {4 if tier != "thorough" else 7} initial values x 4 lower x 4 upper bounds ({nthetas} thetas in '
             f'{nt} record sets) and all ordered pairs of 8 forms; {nc} $OMEGA and $SIGMA record sequences: 30 '
-            f'diagonal forms, BLOCK(n) n<=3 x 11 option sets (VARIANCE|STANDARD x COVARIANCE|CORRELATION, '
+            f'diagonal forms, BLOCK(n) n<={4 if tier == "thorough" else 3} x 11 option sets (VARIANCE|STANDARD x COVARIANCE|CORRELATION, '
             f'CHOLESKY) x 4 option placements x FIX, (v)xn in blocks, VALUES(d,o), SAME / SAME(m) after 4 '
             f'blocks (<=3 records), all ordered pairs of 9 records'),
         'samples': [cases[0]['theta'][0], _cov_text(cases[40]['omega'], 'OMEGA'),
